@@ -257,6 +257,7 @@ pub fn run_check(ctx: &Ctx, engines: &[Box<dyn Engine>], id: &str) -> i32 {
         by_class.entry(f.violation.class.clone()).or_default().push(f);
     }
     let mut exit = 0;
+    let mut unstable = 0;
     let mut n_viol = 0;
     let mut known_hit: BTreeMap<String, u64> = BTreeMap::new();
     let mut reported = Vec::new();
@@ -279,12 +280,13 @@ pub fn run_check(ctx: &Ctx, engines: &[Box<dyn Engine>], id: &str) -> i32 {
         // confirm reproduction from the regenerated scenario first
         let first = sim::exec_once(&cfg, engine.name(), &variant, &scenario, Duration::from_secs(60));
         if !first.iter().any(|v| v.class == *class) {
+            // (memory-unsafe code behaves differently in a worker with another heap history)
             eprintln!(
-                "HARNESS-ERROR: finding class={class} seed={} did not reproduce in a fresh worker (got {:?})",
+                "UNSTABLE: finding class={class} seed={} did not reproduce in a fresh worker (got {:?})",
                 f.run_seed,
                 first.iter().map(|v| &v.class).collect::<Vec<_>>()
             );
-            exit = exit.max(2);
+            unstable += 1;
             continue;
         }
         let (min, steps) = sim::minimise(&cfg, engine, &variant, scenario.clone(), class, budget, Duration::from_secs(60));
@@ -306,8 +308,8 @@ pub fn run_check(ctx: &Ctx, engines: &[Box<dyn Engine>], id: &str) -> i32 {
         // replay the written file in a fresh process
         let rc = replay_file(ctx, engines, &path, false);
         if rc != 1 {
-            eprintln!("HARNESS-ERROR: replay of {path} did not reproduce (rc={rc})");
-            exit = exit.max(2);
+            eprintln!("UNSTABLE: replay of {path} did not reproduce (rc={rc})");
+            unstable += 1;
             continue;
         }
         println!("VIOLATION property={id} replay={path}");
@@ -318,9 +320,17 @@ pub fn run_check(ctx: &Ctx, engines: &[Box<dyn Engine>], id: &str) -> i32 {
     for (line, n) in &known_hit {
         println!("{line} (hit {n}x in this run)");
     }
+    // findings that exist only in one worker's heap history: a harness error unless some
+    // violation of this run did reproduce
+    if unstable > 0 && exit == 0 {
+        eprintln!("HARNESS-ERROR: {unstable} finding class(es) did not reproduce and nothing else was found");
+        exit = 2;
+    }
     for e in &total.harness_errors {
         eprintln!("HARNESS-ERROR: {e}");
-        exit = exit.max(2);
+        if exit == 0 {
+            exit = 2;
+        }
     }
     // stuck probes are warnings
     let wall = start.elapsed().as_secs_f64();
